@@ -36,11 +36,14 @@ pub fn scenarios(tier: &str) -> Vec<Scenario> {
     for kit in KITS {
         let b = base_of(kit);
         let worlds: Vec<WorldSpec> = if thorough {
-            b.subset_worlds()
+            // the 8 obstacle subsets with an even number of obstacles (every obstacle and every pair occurs)
+            let mut w = b.subset_worlds();
+            w.retain(|x| x.obst.len() % 2 == 0);
+            w
         } else {
             vec![b.world_free(), b.world_named("subset0001", vec![b.obstacles[0].clone()]), b.world_named("subset0110", vec![b.obstacles[1].clone(), b.obstacles[2].clone()]), b.world_named("subset1111", b.obstacles.clone())]
         };
-        let radii: Vec<f64> = if thorough { vec![0.6, 1.1, 1.6, 2.5, 1e6] } else { vec![1.1, 1.6, 1e6] };
+        let radii: Vec<f64> = if thorough { vec![0.6, 1.1, 1.6, 1e6] } else { vec![1.1, 1.6, 1e6] };
         for w in &worlds {
             for &r in &radii {
                 out.push(b.scenario(w.clone(), b.params(Pk::Prm, r, 1.0, 0.0), &format!("C18/{kit}/{}/PRMr{r}", w.name)));
